@@ -447,6 +447,11 @@ cdef class CPUDomainManager(DomainManagerBase):
         self.ghosts = None
 
     #### Public protocol ################################################
+    def set_pa_wrappers(self, wrappers):
+        DomainManagerBase.set_pa_wrappers(self, wrappers)
+        # The ghost buffers are clones of the arrays served so far.
+        self.ghosts = None
+
     def update(self):
         """General method that is called before NNPS can bin particles.
 
